@@ -1085,6 +1085,7 @@ def run(ctx):
     ctx.extra['t_model'] = round(_t.time() - t0, 1); t0 = _t.time()
     ndis = 0
     nknown = 0
+    perkey = {}
     orng = np.random.default_rng(ctx.seed + 5)
     pend = {}
     for r, e, g, m in zip(req, exp, got, meta):
@@ -1133,7 +1134,8 @@ def run(ctx):
                 ctx.violation(att[0], att[1], att[2], True)
                 continue
         ndis += 1
-        if ndis > 20:
+        perkey[m[0]] = perkey.get(m[0], 0) + 1
+        if perkey[m[0]] > 3:
             continue
         found = None
         if m[0] in ('fold', 'lit') and len(m) == 2 or m[0] in ('at', 'row', 'col', 'T', 'ravel', 'tr', 'inner', 'oper', 'dx', 'vec'):
